@@ -184,6 +184,24 @@ class StmtMixin(object):
             else:
                 yield s1, NEXT
 
+    def ex_FunctionDef(self, s, st):
+        """a local helper whose body is a single `return <expression>` (after an optional docstring) is the lambda of that expression;
+        any other nested function is outside the subset"""
+        body = [b for b in s.body if not (isinstance(b, ast.Expr) and isinstance(b.value, ast.Constant))]
+        a = s.args
+        if len(body) != 1 or not isinstance(body[0], ast.Return) or body[0].value is None or s.decorator_list \
+                or a.vararg or a.kwarg or a.kwonlyargs or a.defaults or getattr(a, 'posonlyargs', None):
+            raise Unsupported('statement FunctionDef at line %d' % s.lineno)
+        lam = ast.Lambda(args=a, body=body[0].value)
+        ast.copy_location(lam, s)
+        st = st.clone()
+        st.loc = dict(st.loc)
+        env = dict(st.loc)
+        f = FuncV(s.name, ('lambda', lam, env))
+        env[s.name] = f                      # the helper may call itself
+        st.loc[s.name] = f
+        yield st, NEXT
+
     def ex_Return(self, s, st):
         if s.value is None:
             yield st, ('return', NONE)
